@@ -36,6 +36,8 @@ type chanState struct {
 	closed  bool
 	contrib H
 	name    string
+	tokS    byte // race mode: sends and close -> receives
+	tokR    byte // race mode: receives -> sends that complete later
 }
 
 func (e *Exec) touchChan(c *chanState) {
@@ -63,10 +65,10 @@ func chanOf(p unsafe.Pointer, keep any, capacity int) *chanState {
 	if p == nil {
 		return nil
 	}
-	c, ok := ex.chans[p]
-	if !ok {
+	c := (*chanState)(ex.chans.get(p))
+	if c == nil {
 		c = &chanState{keep: keep, cap: capacity}
-		ex.chans[p] = c
+		ex.chans.put(p, unsafe.Pointer(c))
 	}
 	return c
 }
@@ -74,9 +76,7 @@ func chanOf(p unsafe.Pointer, keep any, capacity int) *chanState {
 func removeWaiter(q []*waiter, ss *selState) []*waiter {
 	for i, w := range q {
 		if w.sel == ss {
-			copy(q[i:], q[i+1:])
-			q[len(q)-1] = nil
-			return q[:len(q)-1]
+			return removeIdx(q, i)
 		}
 	}
 	return q
@@ -102,9 +102,7 @@ func (e *Exec) completeSel(w *waiter) {
 
 func popWaiter(q *[]*waiter) *waiter {
 	w := (*q)[0]
-	copy(*q, (*q)[1:])
-	(*q)[len(*q)-1] = nil
-	*q = (*q)[:len(*q)-1]
+	*q = removeIdx(*q, 0)
 	return w
 }
 
@@ -116,6 +114,8 @@ func (e *Exec) trySend(c *chanState, g *G, v any) bool {
 	if len(c.recvq) > 0 {
 		w := popWaiter(&c.recvq)
 		e.completeSel(w)
+		raceAcquire(unsafe.Pointer(&c.tokR))
+		raceReleaseMerge(unsafe.Pointer(&c.tokS))
 		g.hash = mix(g.hash, opSend)
 		w.g.val, w.g.valH, w.g.ok = v, g.hash, true
 		w.g.hash = mix2(w.g.hash, opRecv, uint64(g.hash))
@@ -125,8 +125,10 @@ func (e *Exec) trySend(c *chanState, g *G, v any) bool {
 		return true
 	}
 	if len(c.buf) < c.cap {
+		raceAcquire(unsafe.Pointer(&c.tokR))
+		raceReleaseMerge(unsafe.Pointer(&c.tokS))
 		g.hash = mix(g.hash, opSend)
-		c.buf = append(c.buf, elem{v, g.hash})
+		c.buf = push(c.buf, elem{v, g.hash})
 		e.touchChan(c)
 		e.touchG(g)
 		return true
@@ -136,18 +138,20 @@ func (e *Exec) trySend(c *chanState, g *G, v any) bool {
 
 // tryRecv performs a receive if it can complete now. done=false means it would block.
 func (e *Exec) tryRecv(c *chanState, g *G) (v any, ok bool, done bool) {
+	if len(c.buf) > 0 || len(c.sendq) > 0 || c.closed {
+		raceAcquire(unsafe.Pointer(&c.tokS))
+		raceReleaseMerge(unsafe.Pointer(&c.tokR))
+	}
 	if len(c.buf) > 0 {
 		el := c.buf[0]
-		copy(c.buf, c.buf[1:])
-		c.buf[len(c.buf)-1] = elem{}
-		c.buf = c.buf[:len(c.buf)-1]
+		c.buf = removeIdx(c.buf, 0)
 		g.hash = mix2(g.hash, opRecv, uint64(el.h))
 		if len(c.sendq) > 0 {
 			w := popWaiter(&c.sendq)
 			e.completeSel(w)
 			w.g.hash = mix(w.g.hash, opSend)
 			w.g.ok = true
-			c.buf = append(c.buf, elem{w.val, w.valH})
+			c.buf = push(c.buf, elem{w.val, w.valH})
 			e.ready(w.g)
 		}
 		e.touchChan(c)
@@ -187,7 +191,13 @@ func (s Snd[T]) Send(v T) {
 		s.ch <- v
 		return
 	}
-	c := s.state()
+	// the generic wrapper only converts; the operation itself runs in non-generic code of this
+	// package (generic bodies are compiled into the caller's package and would be instrumented
+	// by the race detector there)
+	sendCore(s.state(), v)
+}
+
+func sendCore(c *chanState, v any) {
 	g := yield()
 	g.active()
 	e := ex
@@ -199,7 +209,8 @@ func (s Snd[T]) Send(v T) {
 		return
 	}
 	g.hash = mix(g.hash, opSend+100)
-	c.sendq = append(c.sendq, &waiter{g: g, val: v, valH: g.hash})
+	raceReleaseMerge(unsafe.Pointer(&c.tokS)) // the value is handed over by whoever receives it
+	c.sendq = push(c.sendq, &waiter{g: g, val: v, valH: g.hash})
 	e.touchChan(c)
 	e.block(g, "chan send")
 	if !g.ok {
@@ -213,26 +224,31 @@ func recvAny[T any](ch <-chan T) (T, bool) {
 		v, ok := <-ch
 		return v, ok
 	}
-	c := chanOf(*(*unsafe.Pointer)(unsafe.Pointer(&ch)), ch, cap(ch))
+	v, ok := recvCore(chanOf(*(*unsafe.Pointer)(unsafe.Pointer(&ch)), ch, cap(ch)))
+	if !ok || v == nil {
+		return zero, ok
+	}
+	return v.(T), ok
+}
+
+func recvCore(c *chanState) (any, bool) {
 	g := yield()
 	g.active()
 	e := ex
 	if c == nil {
 		e.block(g, "receive from nil channel")
-		return zero, false
+		return nil, false
 	}
 	v, ok, done := e.tryRecv(c, g)
 	if !done {
-		c.recvq = append(c.recvq, &waiter{g: g})
+		c.recvq = push(c.recvq, &waiter{g: g})
 		e.touchChan(c)
 		e.block(g, "chan receive")
+		raceReleaseMerge(unsafe.Pointer(&c.tokR))
 		v, ok = g.val, g.ok
 		g.val = nil
 	}
-	if !ok || v == nil {
-		return zero, ok
-	}
-	return v.(T), ok
+	return v, ok
 }
 
 // Recv replaces `<-ch`; Recv2 replaces `v, ok := <-ch`.
@@ -245,7 +261,10 @@ func Close[T any](ch chan<- T) {
 		close(ch)
 		return
 	}
-	c := chanOf(*(*unsafe.Pointer)(unsafe.Pointer(&ch)), ch, cap(ch))
+	closeCore(chanOf(*(*unsafe.Pointer)(unsafe.Pointer(&ch)), ch, cap(ch)))
+}
+
+func closeCore(c *chanState) {
 	g := yield()
 	g.active()
 	if c == nil {
@@ -259,6 +278,7 @@ func (e *Exec) closeChan(c *chanState, g *G) {
 		panic("close of closed channel")
 	}
 	c.closed = true
+	raceReleaseMerge(unsafe.Pointer(&c.tokS))
 	g.hash = mix(g.hash, opClose)
 	for len(c.recvq) > 0 {
 		w := popWaiter(&c.recvq)
@@ -343,10 +363,10 @@ func (c *SC[T]) rset(v reflect.Value, ok bool) {}
 func passThroughSelect(def bool, cs []Case) int {
 	rc := make([]reflect.SelectCase, 0, len(cs)+1)
 	for _, c := range cs {
-		rc = append(rc, c.rcase())
+		rc = push(rc, c.rcase())
 	}
 	if def {
-		rc = append(rc, reflect.SelectCase{Dir: reflect.SelectDefault})
+		rc = push(rc, reflect.SelectCase{Dir: reflect.SelectDefault})
 	}
 	i, v, ok := reflect.Select(rc)
 	if def && i == len(cs) {
@@ -373,7 +393,7 @@ func Select(site int, def bool, cs ...Case) int {
 	var stsArr [8]*chanState
 	sts := stsArr[:0]
 	for _, c := range cs {
-		sts = append(sts, c.st())
+		sts = push(sts, c.st())
 	}
 	g := yield()
 	var readyArr [8]int
@@ -386,16 +406,16 @@ func Select(site int, def bool, cs ...Case) int {
 		}
 		if c.isSend() {
 			if s.closed || len(s.buf) < s.cap || len(s.recvq) > 0 {
-				ready = append(ready, i)
+				ready = push(ready, i)
 			}
 		} else {
 			if len(s.buf) > 0 || len(s.sendq) > 0 {
-				ready = append(ready, i)
+				ready = push(ready, i)
 			} else if s.closed {
 				if g.passiveOnly && g.inSpinSet(site, i) {
 					stutter |= 1 << uint(i)
 				} else {
-					ready = append(ready, i)
+					ready = push(ready, i)
 				}
 			}
 		}
@@ -424,7 +444,7 @@ func Select(site int, def bool, cs ...Case) int {
 					g.spinSet = g.spinSet[:0]
 				}
 				g.passiveOnly = true
-				g.spinSet = append(g.spinSet, uint32(site)<<8|uint32(i))
+				g.spinSet = push(g.spinSet, uint32(site)<<8|uint32(i))
 			} else {
 				g.active()
 			}
@@ -448,11 +468,12 @@ func Select(site int, def bool, cs ...Case) int {
 		w := &waiter{g: g, sel: ss, caseIx: i}
 		if c.isSend() {
 			w.val, w.valH = c.sendVal(), mix(g.hash, uint64(i))
-			s.sendq = append(s.sendq, w)
+			raceReleaseMerge(unsafe.Pointer(&s.tokS))
+			s.sendq = push(s.sendq, w)
 		} else {
-			s.recvq = append(s.recvq, w)
+			s.recvq = push(s.recvq, w)
 		}
-		ss.chans = append(ss.chans, s)
+		ss.chans = push(ss.chans, s)
 		e.touchChan(s)
 	}
 	what := "select"
